@@ -1,7 +1,7 @@
 """Translator anchors for fedjax/datasets/shakespeare.py (C20): the label constants, the
 look-up table arithmetic and every index expression of preprocess_client."""
 import ast
-from lib.c20tr import A_no_process_dependence, D, _T, _unsupported, _body, _ctx, zdef, _first_assign, A_modconst_expr
+from lib.c20tr import A_forwarding, A_no_process_dependence, D, _T, _unsupported, _body, _ctx, zdef, _first_assign, A_modconst_expr
 from translate import A_const
 
 SRC = 'fedjax/datasets/shakespeare.py'
@@ -213,6 +213,8 @@ MODULES = {
             A_const('PAD', 'PAD'), A_const('BOS', 'BOS'), A_const('EOS', 'EOS'),
             _preprocess,
             A_no_process_dependence('shakespeare_is_process_independent'),
+            A_forwarding('load_data', 'load_split', 'sh_load_data_forwards'),
+            A_forwarding('load_data', 'functools.partial', 'sh_load_data_binds_sequence_length', callee_params=['func', 'sequence_length']),
         ],
     },
 }
